@@ -667,7 +667,25 @@ func (s *session) step(enums map[string][]string, force *TableMeta) {
 	case "Delete": // link tables: by the foreign keys of the item
 		item := s.newItem(m, enums)
 		if all := s.call(t.Funcs["SelectAll"], s.db); errOf(all[1]) == nil && all[0].Len() > 0 && s.rng.Intn(4) != 0 {
-			item = all[0].Index(s.rng.Intn(all[0].Len()))
+			stored := all[0].Index(s.rng.Intn(all[0].Len()))
+			if s.rng.Intn(3) == 0 {
+				// a near miss: a stored link with ONE of its keys changed (it is another link: nothing must go)
+				near := reflect.New(stored.Type()).Elem()
+				near.Set(stored)
+				var keys []int
+				for i, c := range m.Cols {
+					if c.FK != "" {
+						keys = append(keys, i)
+					}
+				}
+				if len(keys) > 0 {
+					c := m.Cols[keys[s.rng.Intn(len(keys))]]
+					s.setFK(near.FieldByName(c.Field), s.pickID(c.FK, true), false)
+				}
+				item = near
+			} else {
+				item = stored
+			}
 		}
 		ev.Row = s.canonRow(m, item)
 		res := s.call(fn, item, s.db)
